@@ -111,6 +111,13 @@ def handle (toks : List String) : Option String :=
     | some (d, p) => pure s!"ok {tokOfBytes d} {tokOfBytes p}"
   | ["envser", dek, payload] => do
     pure (okB (envelopeSerialize (← bytesOfTok? dek) (← bytesOfTok? payload)))
+  | ["aadbits", n] => do
+    -- the block that closes the encrypt-then-MAC input `EtM.macInput ad payload = ad ‖ payload ‖ be64(8·|ad|)`
+    -- for an associated data of n bytes: read off the definition itself (zero-filled ad, empty payload) where
+    -- that is feasible, the same expression `Bytes.be64 (8 * n)` for sizes that cannot be materialised
+    let n ← n.toNat?
+    if n ≤ 4096 then pure (tokOfBytes ((EtM.macInput (Bytes.zeros n) []).drop n))
+    else pure (tokOfBytes (Bytes.be64 (8 * n)))
   | ["polydot", a, b] => do
     pure (tokOfBytes (polyvalMulSpec (ba (← bytesOfTok? a)) (ba (← bytesOfTok? b))).toList)
   | _ => none
